@@ -28,7 +28,7 @@ def mods(c):
 
 CONTRACTS = []
 CONTRACTS.append(Contract(
-    M + 'started_building_file', props=['C04', 'C10', 'C12'], trusted=True,
+    M + 'started_building_file', props=['C04', 'C10', 'C12'],
     params={'self': BD, 'filename': STR, 'created_dirs': LIST(STR)}, returns=LIST(STR),
     ret_fresh=True,
     ensures=lambda c: [
@@ -37,12 +37,29 @@ CONTRACTS.append(Contract(
             And(z3.Contains(c.created_dirs, z3.Unit(x)), anc(x, dirname(c.filename)))))),
         ('locked-are-registered', ForAll([x], Implies(
             z3.Contains(c.res, z3.Unit(x)), OCM.is_some(c.new(CM, c.self)[x])))),
-        ('one-more-reservation', c.gnew('bd_res') == c.gold('bd_res') + 1),
-        ('this-path-reserved', c.gnew('bd_resv') == z3.Store(c.gold('bd_resv'), c.filename, True)),
     ],
     modifies=mods,
+    local_types={'locked_created_dirs': LIST(STR), 'created_dirs_set': SET(STR), 'count': INT},
+    loops={0: LoopSpec(inv=lambda c: [
+        ('walking-up-from-the-file', anc(c.v('parent'), dirname(c.filename))),
+        ('locked-so-far-are-made-ancestors', ForAll([x], Implies(
+            z3.Contains(c.v('locked_created_dirs'), z3.Unit(x)),
+            And(z3.Contains(c.created_dirs, z3.Unit(x)), anc(x, dirname(c.filename)))))),
+        ('locked-so-far-are-registered', ForAll([x], Implies(
+            z3.Contains(c.v('locked_created_dirs'), z3.Unit(x)),
+            OCM.is_some(c.new(CM, c.self)[x])))),
+        ('set-is-the-list', ForAll([x], c.v('created_dirs_set')[x]
+                                   == z3.Contains(c.created_dirs, z3.Unit(x)))),
+    ])},
+    lemmas=['ANC', 'PATHS'],
     notes='reserves the file and its unreserved ancestors; returns the ancestors out of '
-          'created_dirs that this call registered as created'))
+          'created_dirs that this call registered as created.  The two reservation ghosts are '
+          'marker updates (definitions); that the counts equal the number of reserved files below '
+          'each directory is the bounded stand-in build_dirs_machine'))
+CONTRACTS[-1].ghost_updates = lambda c: {
+    'bd_res': c.gold('bd_res') + 1,
+    'bd_resv': z3.Store(c.gold('bd_resv'), c.filename, True)}
+CONTRACTS[-1].lock_guards = {f: '_lock' for f in BD_FIELDS}
 CONTRACTS.append(Contract(
     M + 'error_building_file', props=['C04', 'C10'], trusted=True,
     params={'self': BD, 'filename': STR},
